@@ -1,7 +1,14 @@
 #!/bin/bash
 # usage: tools/try_mutant.sh <patch.diff> <property> [<property> ...]
 # Runs the quick checks against a scratch worktree of /repo (HEAD) with the patch applied; /repo itself is not touched.
+# The worktree /tmp/mutrepo and the build output under .cache/*-alt are kept between invocations (the next build is
+# incremental); `tools/try_mutant.sh --clean` removes both.
 set -u
+if [ "${1:-}" = "--clean" ]; then
+  git -C /repo worktree remove --force /tmp/mutrepo 2>/dev/null; git -C /repo worktree prune
+  cd "$(dirname "$0")/.." && rm -rf .cache/target-alt .cache/work-alt .cache/harness-alt .cache/evidence-alt
+  exit 0
+fi
 PATCH=$(readlink -f "$1"); shift
 W=/tmp/mutrepo
 if [ ! -d $W ]; then git -C /repo worktree add --detach $W HEAD >/dev/null 2>&1 || exit 2; fi
